@@ -20,6 +20,9 @@ size_t gh_wi; struct sit *gh_word;                   /* ghost ELEMENT of the sit
 #ifndef DMAX
 #define DMAX 64
 #endif
+#ifndef VCAP
+#define VCAP 3
+#endif
 #define HDR (sizeof (struct _os_segment))
 #define PAY (offsetof (struct _os_segment, os_segment_contest))
 #define OFF(p) __CPROVER_POINTER_OFFSET (p)
@@ -186,3 +189,54 @@ __CPROVER_assigns (new_set, new_core, new_set_ready_p, new_n_start_sits, new_sit
 __CPROVER_ensures (new_set == NULL && new_core == NULL && new_set_ready_p == 0 && new_n_start_sits == 0 && new_sits == NULL && new_dists == NULL)
 ;
 void h_new_start (void) { HAVOC (new_set); HAVOC (new_core); HAVOC (new_set_ready_p); HAVOC (new_n_start_sits); HAVOC (new_sits); HAVOC (new_dists); set_new_start (); VACUITY_CANARY (); }
+
+/* E.vlo_array.expand (C17, C12): vlo_array_expand - hands out the next vlo of the array of vlos, creating one when the array is used up.
+   Every memory request may fail and leave through the error exit of yaep_parse, whose clean-up (vlo_array_fin) deletes EVERY element of
+   the array.  So at every request the array must consist of initialised elements only: that is the precondition of the two allocation
+   contracts below (F33 broke it: the array was grown first and the new element created afterwards). */
+#define VAL(v) ((size_t) (OFF ((v).vlo_free) - OFF ((v).vlo_start)))
+size_t gh_ninit;                     /* number of elements of vlo_array, all of them initialised vlos */
+size_t gh_vk2; char gh_vbyte;        /* ghost byte of the array before the call */
+void *alloc_site_c (YaepAllocator *a, size_t n)
+__CPROVER_requires (VAL (vlo_array) == gh_ninit * sizeof (vlo_t))            /* nothing uninitialised in the array while a request is pending */
+__CPROVER_requires (n == 64)
+__CPROVER_assigns ()
+__CPROVER_ensures (__CPROVER_is_fresh (__CPROVER_return_value, n))
+;
+void vlo_grow_site_c (vlo_t *vlo, size_t additional_length)
+__CPROVER_requires (vlo == &vlo_array && VAL (vlo_array) == gh_ninit * sizeof (vlo_t) && additional_length == sizeof (vlo_t))
+__CPROVER_requires (gh_vk2 < VAL (vlo_array) ==> gh_vbyte == vlo_array.vlo_start[gh_vk2])
+__CPROVER_assigns (vlo->vlo_start, vlo->vlo_free, vlo->vlo_boundary, gh_newlen)
+__CPROVER_ensures (gh_newlen >= gh_ninit * sizeof (vlo_t) + additional_length && gh_newlen <= 4 * (VCAP + 1) * sizeof (vlo_t) + 64)
+__CPROVER_ensures (__CPROVER_is_fresh (vlo->vlo_start, gh_newlen))
+__CPROVER_ensures (__CPROVER_pointer_in_range_dfcc (vlo->vlo_start + gh_ninit * sizeof (vlo_t), vlo->vlo_free, vlo->vlo_start + gh_ninit * sizeof (vlo_t)))
+__CPROVER_ensures (__CPROVER_pointer_in_range_dfcc (vlo->vlo_start + gh_newlen, vlo->vlo_boundary, vlo->vlo_start + gh_newlen))
+__CPROVER_ensures (gh_vk2 < gh_ninit * sizeof (vlo_t) ==> vlo->vlo_start[gh_vk2] == gh_vbyte)
+;
+int vlo_array_expand_c (void)
+__CPROVER_requires (VAL (vlo_array) == gh_ninit * sizeof (vlo_t) && gh_ninit <= VCAP && vlo_array_len >= 0 && (size_t) vlo_array_len <= gh_ninit && grammar != NULL)
+__CPROVER_requires (gh_vk2 < VAL (vlo_array) ==> gh_vbyte == vlo_array.vlo_start[gh_vk2])
+__CPROVER_assigns (vlo_array, vlo_array_len, gh_newlen, __CPROVER_object_whole (vlo_array.vlo_start))
+__CPROVER_ensures (__CPROVER_return_value == __CPROVER_old (vlo_array_len) && vlo_array_len == __CPROVER_old (vlo_array_len) + 1)
+/* the array consists of initialised vlos only, one more than before iff it was used up; the one handed out is empty */
+__CPROVER_ensures (VAL (vlo_array) == ((size_t) __CPROVER_old (vlo_array_len) == gh_ninit ? gh_ninit + 1 : gh_ninit) * sizeof (vlo_t))
+__CPROVER_ensures (((vlo_t *) vlo_array.vlo_start)[__CPROVER_return_value].vlo_start != NULL
+                   && ((vlo_t *) vlo_array.vlo_start)[__CPROVER_return_value].vlo_free == ((vlo_t *) vlo_array.vlo_start)[__CPROVER_return_value].vlo_start)
+/* the other elements are untouched (ghost byte outside the element handed out) */
+__CPROVER_ensures ((gh_vk2 < gh_ninit * sizeof (vlo_t) && gh_vk2 / sizeof (vlo_t) != (size_t) __CPROVER_return_value) ==> vlo_array.vlo_start[gh_vk2] == gh_vbyte)
+;
+void h_vlo_array_expand (void)
+{
+  size_t cap, i; vlo_t *els;
+  HAVOC (gh_newlen); HAVOC (gh_ninit); HAVOC (gh_vk2); HAVOC (gh_vbyte);
+  grammar = malloc (sizeof (struct grammar)); __CPROVER_assume (grammar != NULL);
+  __CPROVER_assume (gh_ninit <= VCAP && cap >= gh_ninit && cap <= VCAP + 1 && cap >= 1);
+  els = malloc (cap * sizeof (vlo_t)); __CPROVER_assume (els != NULL);
+  vlo_array.vlo_start = (char *) els; vlo_array.vlo_free = (char *) (els + gh_ninit); vlo_array.vlo_boundary = (char *) (els + cap); HAVOC (vlo_array.vlo_alloc); __CPROVER_assume (vlo_array.vlo_alloc != NULL);
+  /* the element that may be handed out again is a real, initialised vlo */
+  { int k; __CPROVER_assume (k >= 0 && (size_t) k <= gh_ninit); vlo_array_len = k;
+    if ((size_t) k < gh_ninit) { els[k].vlo_start = malloc (64); __CPROVER_assume (els[k].vlo_start != NULL); els[k].vlo_boundary = els[k].vlo_start + 64; size_t f; __CPROVER_assume (f <= 64); els[k].vlo_free = els[k].vlo_start + f; } }
+  if (gh_vk2 < VAL (vlo_array)) gh_vbyte = vlo_array.vlo_start[gh_vk2];
+  vlo_array_expand ();
+  if ((size_t) vlo_array_len - 1 == gh_ninit) VACUITY_CANARY_N ("array used up: a vlo is created"); else VACUITY_CANARY_N ("an existing vlo is reused");
+}
